@@ -34,11 +34,11 @@ Proof. reflexivity. Qed.
 Lemma buffer_step_wf : forall b msg b' o, buf_wf b -> buffer_step b msg = Ok (b', o) -> buf_wf b'.
 Proof.
   intros b msg b' o W H. unfold buffer_step in H. set (slot := slot_of msg) in *.
-  set (buffer1 := if negb (buf_mem b slot) then buf_set b slot (py_repeat None (Z.max (a_frag_cnt msg) 255)) else b) in *.
+  set (buffer1 := if negb (buf_mem b slot) then buf_set b slot (pyl_repeat None (Z.max (a_frag_cnt msg) 255)) else b) in *.
   assert (W1 : buf_wf buffer1) by (unfold buffer1; destruct (negb (buf_mem b slot)); [apply buf_wf_set|]; exact W).
   destruct (buf_get buffer1 slot) as [arr|]; [|discriminate].
-  destruct (py_setitem arr (a_frag_num msg - 1) (Some msg)) as [arr'|e]; [|discriminate].
-  destruct (py_len (not_none (py_slice arr' 0 (a_frag_cnt msg))) =? a_frag_cnt msg).
+  destruct (pyl_setitem arr (a_frag_num msg - 1) (Some msg)) as [arr'|e]; [|discriminate].
+  destruct (pyl_len (not_none (pyl_slice arr' 0 (a_frag_cnt msg))) =? a_frag_cnt msg).
   - destruct (assemble_from_iterable _); [|discriminate]. inversion H; subst. apply buf_wf_del, buf_wf_set, W1.
   - inversion H; subst. apply buf_wf_set, W1.
 Qed.
@@ -53,7 +53,7 @@ Lemma buffer_step_local : forall b1 b2 msg, buf_wf b1 -> buf_wf b2 ->
   end.
 Proof.
   intros b1 b2 msg W1 W2 Hg. unfold buffer_step. set (slot := slot_of msg) in *.
-  set (fresh := py_repeat (@None ais_sentence) (Z.max (a_frag_cnt msg) 255)).
+  set (fresh := pyl_repeat (@None ais_sentence) (Z.max (a_frag_cnt msg) 255)).
   rewrite !buf_mem_get, <- Hg.
   set (c1 := if negb match buf_get b1 slot with Some _ => true | None => false end then buf_set b1 slot fresh else b1).
   set (c2 := if negb match buf_get b1 slot with Some _ => true | None => false end then buf_set b2 slot fresh else b2).
@@ -62,8 +62,8 @@ Proof.
   assert (Wc1 : buf_wf c1) by (unfold c1; destruct (negb _); [apply buf_wf_set|]; exact W1).
   assert (Wc2 : buf_wf c2) by (unfold c2; destruct (negb _); [apply buf_wf_set|]; exact W2).
   rewrite <- Hc. destruct (buf_get c1 slot) as [arr|]; [|reflexivity].
-  destruct (py_setitem arr (a_frag_num msg - 1) (Some msg)) as [arr'|e]; [|reflexivity].
-  destruct (py_len (not_none (py_slice arr' 0 (a_frag_cnt msg))) =? a_frag_cnt msg).
+  destruct (pyl_setitem arr (a_frag_num msg - 1) (Some msg)) as [arr'|e]; [|reflexivity].
+  destruct (pyl_len (not_none (pyl_slice arr' 0 (a_frag_cnt msg))) =? a_frag_cnt msg).
   - destruct (assemble_from_iterable _) as [full|e]; [|reflexivity].
     split; [reflexivity|]. rewrite !buf_get_del_same by (apply buf_wf_set; assumption). reflexivity.
   - split; [reflexivity|]. now rewrite !buf_get_set_same.
